@@ -355,6 +355,25 @@ func TestC16Damage(t *testing.T) {
 						}
 					}
 				}
+				// (some of the new exactly-once transfers get as far as PUBREL)
+				if cur := n.Current(); cur != nil && len(cur.Owed()) != 0 {
+					n.App.Step()
+					for k := rapid.IntRange(0, 4).Draw(rt, "progressBeforeTheStop"); k > 0; k-- {
+						released := false
+						for i, o := range cur.Owed() {
+							if o.Kind == refmqtt.PUBREC {
+								n.Act("release %s", o)
+								cur.Release(i)
+								released = true
+								break
+							}
+						}
+						if !released {
+							break
+						}
+						n.settleInbound()
+					}
+				}
 				n.Shutdown(5 * time.Second)
 				n2, pend2 := n.restart(restartOpts{K: n.Store.NOps(), Late: true, Config: cfg})
 				n2.Act("second life after damage %v", ds)
@@ -386,6 +405,24 @@ func TestC16Damage(t *testing.T) {
 				n2.appStep("first connect of the second life")
 				if last, ok := n2.App.Last(); ok && !n2.App.InCall() && last.Err != nil {
 					n2.Failf("second life after damage %v: the first ReadSlices fails in a healthy environment: %v (warnings: %v)", ds, last.Err, n2.Warn)
+				}
+				// what the second process itself had accepted and not completed is resumed by the third
+				if cs := n2.AllConns(); len(cs) != 0 {
+					ps, _, _ := refmqtt.DecodeAll(cs[0].OutCopy())
+					for _, pd := range pend2 {
+						if pd.Msg.Inherited {
+							continue // (may have been abandoned by the first adoption)
+						}
+						found := false
+						for _, p := range ps {
+							if p.ID == pd.ID && (p.Type == refmqtt.PUBREL && pd.StageRel || p.Type == refmqtt.PUBLISH && !pd.StageRel) {
+								found = true
+							}
+						}
+						if !found {
+							n2.Failf("second life after damage %v: transfer %#04x (%q), accepted by the adopted client and pending at its stop, is not resumed by the next process (warnings: %v)", ds, pd.ID, pd.Req.Topic, n2.Warn)
+						}
+					}
 				}
 				n2.drain(func() bool { return n2.allPersistedDone() })
 				noPanics(n2)
